@@ -1,4 +1,4 @@
 SPECIFICATION Spec
-INVARIANTS AtMostOnce RanOnWorker NoHang
+INVARIANTS AtMostOnce RanOnWorker NoHang AwNotForgotten
 PROPERTY Termination
 CHECK_DEADLOCK FALSE
